@@ -154,13 +154,15 @@ func (c *CitadelClient) buildConnection() (*grpc.ClientConn, error) {
 }
 
 func (c *CitadelClient) reconnect() error {
-	if err := c.conn.Close(); err != nil {
-		return fmt.Errorf("failed to close connection: %v", err)
-	}
-
+	// Build the new connection before giving up the old one. If we cannot build it now (for example the
+	// root cert is unreadable while it is being rotated), keep the old connection so that the next
+	// failed request retries the rebuild; a closed connection can never recover.
 	conn, err := c.buildConnection()
 	if err != nil {
 		return err
+	}
+	if err := c.conn.Close(); err != nil {
+		citadelClientLog.Warnf("failed to close old connection: %v", err)
 	}
 	c.conn = conn
 	c.client = pb.NewIstioCertificateServiceClient(conn)
